@@ -106,6 +106,7 @@ type Proxy struct {
 	accepts    int
 	refuse     bool
 	failNext   int
+	blackNext  int // the next n websocket connections fall silent right after their handshake
 	faults     []*Fault
 	frames     []FrameInfo
 	protoErrs  []string
@@ -163,6 +164,14 @@ func (p *Proxy) FailNext(n int) {
 	p.failNext = n
 	p.mu.Unlock()
 }
+// BlackholeNext makes the next n websocket connections fall silent (both directions discarded) as soon
+// as their handshake has completed.
+func (p *Proxy) BlackholeNext(n int) {
+	p.mu.Lock()
+	p.blackNext = n
+	p.mu.Unlock()
+}
+
 func (p *Proxy) FailNextLeft() int {
 	p.mu.Lock()
 	defer p.mu.Unlock()
@@ -503,6 +512,13 @@ func (p *Proxy) serve(pc *pconn) {
 		return
 	}
 	pc.ws = true
+	p.mu.Lock()
+	if p.blackNext > 0 {
+		p.blackNext--
+		atomic.StoreInt32(&pc.black, 1)
+		core.Log.Note("px.blackhole", fmt.Sprintf("c%d silent from the handshake on", pc.n))
+	}
+	p.mu.Unlock()
 	done := make(chan struct{}, 2)
 	go func() { p.frameRelay(pc, C2S, cbr, pc.s); done <- struct{}{} }()
 	go func() { p.frameRelay(pc, S2C, sbr, pc.c); done <- struct{}{} }()
